@@ -56,15 +56,11 @@ def listIncludes (root : PTree) : List ((Nat × Nat) × String) :=
   match Ast.sourceFileCast root with
   | none => []
   | some sf =>
-    match Ast.sourceFileStatementList sf with
-    | none => []
-    | some sl =>
-      (Ast.statementListStatements sl).filterMap fun stmt =>
-        if stmt.kind == .Include then
-          match Ast.includePath stmt with
-          | some p => some ((stmt.start, stmt.stop), Ast.stringValue p)
-          | none => none
-        else none
+    -- `source_file.syntax().descendants().filter_map(ast::Include::cast)`: includes inside blocks too
+    (descendants sf (fun n => n.kind == .Include)).toList.filterMap fun c =>
+      match Ast.includePath c.here with
+      | some p => some ((c.here.start, c.here.stop), Ast.stringValue p)
+      | none => none
 
 /-- the harness file system + the salsa inputs while sources are collected -/
 structure Collect where
